@@ -44,6 +44,7 @@ def run(ck, fb):
     r05g(ck, fb)
     r05h(ck, fb)
     r05i(ck, fb)
+    r05j(ck, fb)
     ck.borrow('rules.c08', {'R08b': 'R05f'}, 'membership/addresses of an installed snapshot reach the index file')
 
 
@@ -409,3 +410,41 @@ def r05i(ck, fb, R='R05i'):
                        'reports members [1, 2, 3], stays Follower without a leader and refuses every write',
                        'followed by client_write(ClientRequest::Members)')
     ck.floor(R, 'callers of Raft::change_membership', n, 2)
+
+
+def r05j(ck, fb, R='R05j'):
+    ck.rule(R, 'a save is answered Ok only after write_index, unless nothing is to be saved: in every catalogue writer a success answer that '
+               'does not pass write_index lies behind an equality test of EVERY field the writer is responsible for against its parameter '
+               '(a shortcut on the term alone forgets a vote granted in the current term; on the member list alone a changed address)')
+    n = 0
+    for fn, fields in FUNNEL.items():
+        b = ck.body(IM + fn, R)
+        if not b:
+            continue
+        wi = {s.bb for s in b.calls(re.escape(IM + 'write_index') + '$')}
+        if not wi:
+            continue   # R05a reports the missing funnel
+        free = cfg.reach_from(b, [0], blocked_blocks=list(wi)) | {0}
+        oks = [i for i in util.ok_return_blocks(b) if i in free and i in cfg.live_blocks(b)]
+        n += 1
+        bad = []
+        for i in oks:
+            eq = set()
+            for a in cfg.guard_atoms(b, i):
+                if a[0] != 'cmp':
+                    continue
+                op, pol = a[1], a[4]
+                if (op == 'Eq' and pol is True) or (op == 'Ne' and pol is False):
+                    for side in (a[2], a[3]):
+                        d = cfg.strip_calls(b, side)
+                        if d['k'] == 'place':
+                            eq |= set(d['fields'])
+            need = fields or {'node_addrs'}
+            if not need <= eq:
+                bad.append((i, sorted(need - eq)))
+        ck.require(not bad, R, '%s:ok-without-write' % fn, b.where(bad[0][0]) if bad else b.where(),
+                   '%s can answer Ok without write_index on a path that does not establish that %s already hold the requested values: '
+                   'the acknowledged save (%s) is neither in memory nor in the index file and is gone after a restart'
+                   % (fn, bad[0][1] if bad else '', ', '.join(sorted(fields)) or 'node address'),
+                   '%d success answers outside write_index' % len(oks))
+    ck.floor(R, 'catalogue writers', n, 6)
